@@ -368,7 +368,7 @@ def run(tier, seed):
     for rd in range(rounds):
         trees = list(R.all_trees(4, 4))
         n_trees = len(trees)
-        for spec in _specs(trees, rng, NAMESETS, PACK if rd == 0 else (8, 24, 40)[rd]):
+        for spec in _specs(trees, rng, NAMESETS, (PACK, 8, 40)[rd]):
             tasks.append((spec, rng.randrange(10 ** 9), 4))
     n_random = 0
     if tier != "quick":
